@@ -569,8 +569,9 @@ func capBoundary(ctx *hx.Ctx, extra int) {
 // runHistory feeds a hand-built packet history to a fresh decoder, records it as a correspondence
 // case and applies the C08 oracles directly: no panic, every returned unit within
 // MaxTemporalUnitSize / MaxOBUsPerTemporalUnit, retained memory within the proved bound
-// (frame buffer <= cap, fragments <= max(cap, packet)).
-func runHistory(ctx *hx.Ctx, name string, hist []*rtp.Packet) {
+// (frame buffer <= cap, fragments <= max(cap, packet)).  corr = false: oracles only (a near-cap line
+// has ~3 million tokens and costs the extracted model ~7 s).
+func runHistory(ctx *hx.Ctx, name string, hist []*rtp.Packet, corr bool) {
 	d, _ := Format.NewDecoder(0)
 	ctx.Eval()
 	var c, o hx.L
@@ -622,9 +623,11 @@ func runHistory(ctx *hx.Ctx, name string, hist []*rtp.Packet) {
 			}
 		}
 	}
-	b, sl := codec.Retained(d.Raw())
-	o.I(b).I(sl)
-	ctx.Corr(c.String(), o.String())
+	if corr {
+		b, sl := codec.Retained(d.Raw())
+		o.I(b).I(sl)
+		ctx.Corr(c.String(), o.String())
+	}
 	ctx.Kind("rtpav1 near-cap")
 	ctx.Nontrivial("rtpav1|near-cap|" + name)
 }
@@ -755,8 +758,14 @@ func nearCapProbes(ctx *hx.Ctx) {
 			}
 		}
 	}
-	for _, pr := range probes {
-		runHistory(ctx, pr.String(), pr.history())
+	// every probe goes through the direct oracles; as correspondence cases: quick = the three
+	// most telling ones, thorough = the nine base probes and every fourth probe of the sweep
+	for i, pr := range probes {
+		corr := i == 1 || i == 4 || i == 7
+		if ctx.Thorough {
+			corr = i < 9 || i%4 == 0
+		}
+		runHistory(ctx, pr.String(), pr.history(), corr)
 	}
 }
 
